@@ -72,8 +72,16 @@ def check_render(sess, op):
         sess.fail("C19", clause, detail, sig=sig)
 
     nodes, edges, clusters = collect(g)
-    want_nodes = sorted(m.order + (["Scale"] if heat else []))
-    got_nodes = sorted(n for n, _, _ in nodes)
+    # the legend is the one node carrying a colour gradient; its identifier
+    # must not be the name of a component (dot identifiers are compared
+    # unquoted: "Scale" and Scale are one node)
+    legend = [n for n, a, _ in nodes if "gradientangle" in a]
+    if len(legend) != (1 if heat else 0):
+        fail("one-node-per-component", "%d legend nodes in a %s diagram" % (len(legend), "heat" if heat else "block"))
+    if heat and legend[0] in m.order:
+        fail("one-node-per-component", "the legend uses the identifier %r, which is a component's name: dot merges the two nodes" % (legend[0],))
+    want_nodes = sorted(m.order) + (["<legend>"] if heat else [])
+    got_nodes = sorted(n for n, a, _ in nodes if "gradientangle" not in a) + (["<legend>"] if legend else [])
     if got_nodes != want_nodes:
         fail("one-node-per-component", "nodes %s, components %s" % (got_nodes[:12], want_nodes[:12]))
     want_edges = sorted(m.links())
@@ -88,8 +96,8 @@ def check_render(sess, op):
     if grouping and groups:
         if sorted(clusters) != sorted("cluster_" + x for x in groups):
             fail("clusters-are-groups", "clusters %s, groups %s" % (sorted(clusters), groups))
-        for n, _, c in nodes:
-            if n == "Scale":
+        for n, a_, c in nodes:
+            if "gradientangle" in a_:
                 want = None
             else:
                 want = ("cluster_" + m.groups[n]) if m.groups[n] else None
@@ -121,7 +129,7 @@ def check_render(sess, op):
             return
         mx = max(loss.values()) if loss else 0.0
     for n, attrs, _ in nodes:
-        if n == "Scale":
+        if "gradientangle" in attrs:
             continue
         want = dict(cfg["node"]["default"])
         want.update(cfg["node"].get(m.kind(n), {}))
@@ -155,14 +163,14 @@ def check_render(sess, op):
             if attrs != want:
                 fail("node-attributes", "%s attrs %s want %s (default<-kind<-name)" % (n, attrs, want))
     if heat:
-        sc = [a for n, a, _ in nodes if n == "Scale"]
+        sc = [a for n, a, _ in nodes if "gradientangle" in a]
         lab = sc[0].get("label", "")
         first = lab.strip("{}").split("|")[0]
         val = parse_loss_text(first)
         if val is None or abs(val - mx) > 5e-3 * abs(mx) + 1e-30:
             fail("heat-legend", "legend %r, maximum loss %r" % (lab, mx))
         # colours ordered as the losses
-        order = sorted(((loss[n], _hex(a.get("fillcolor"))[0]) for n, a, _ in nodes if n != "Scale"))
+        order = sorted(((loss[n], _hex(a.get("fillcolor"))[0]) for n, a, _ in nodes if "gradientangle" not in a))
         for (l1, r1), (l2, r2) in zip(order, order[1:]):
             if l2 > l1 and r2 < r1:
                 fail("heat-colour-order", "loss %r redder than loss %r" % (l1, l2))
@@ -218,9 +226,9 @@ def _check_text(sess, m, text, heat, fail):
     if not gs:
         fail("dot-text-parses", "pydot cannot parse the emitted dot text")
     nodes, edges, _ = collect(gs[0])
-    names = sorted(n for n, _, _ in nodes if n not in ("node", "edge", "graph") or n in m.order)
+    names = sorted(n for n, a, _ in nodes if (n not in ("node", "edge", "graph") or n in m.order) and "gradientangle" not in a)
     # default-attribute statements come back as pseudo nodes named node/edge/graph
-    want = sorted(m.order + (["Scale"] if heat else []))
+    want = sorted(m.order)
     if names != want:
         fail("dot-text-one-node-per-component", "dot text declares nodes %s, components %s" % (names[:12], want[:12]))
     got_e = sorted((a.split(":")[0] if False else a, b) for a, b, _ in edges)
@@ -239,8 +247,11 @@ def _real_dot(sess, m, text, heat, grouping, fail):
         fail("graphviz-accepts", "dot exit %d: %s" % (p.returncode, p.stderr.decode()[:200]))
     doc = json.loads(p.stdout.decode())
     objs = doc.get("objects", [])
-    names = sorted(o["name"] for o in objs if "nodes" not in o and not o["name"].startswith("cluster_") and "_gvid" in o and "subgraphs" not in o)
-    want = sorted(m.order + (["Scale"] if heat else []))
+    names = sorted(o["name"] for o in objs if "nodes" not in o and "_gvid" in o and "subgraphs" not in o and "gradientangle" not in o)
+    want = sorted(m.order)
+    nleg = sum(1 for o in objs if "nodes" not in o and "subgraphs" not in o and "gradientangle" in o)
+    if nleg != (1 if heat else 0):
+        fail("graphviz-one-node-per-component", "graphviz sees %d legend nodes" % nleg)
     if names != want:
         fail("graphviz-one-node-per-component", "graphviz sees nodes %s, components %s" % (names[:12], want[:12]))
     byid = {o["_gvid"]: o["name"] for o in objs}
@@ -249,7 +260,7 @@ def _real_dot(sess, m, text, heat, grouping, fail):
         fail("graphviz-one-edge-per-link", "graphviz sees edges %s, links %s" % (ed[:8], sorted(m.links())[:8]))
     if grouping:
         for o in objs:
-            if o["name"].startswith("cluster_"):
+            if o["name"].startswith("cluster_") and ("nodes" in o or "subgraphs" in o):
                 members = sorted(byid[i] for i in o.get("nodes", []))
                 gname = o["name"][len("cluster_"):]
                 wantm = sorted(n for n in m.order if m.groups[n] == gname)
